@@ -272,6 +272,19 @@ class FullGen(Gen):
                     self.emit_line(indent, "%s(%s)" % (m, self.expr(sc, INT, 2)))
                     self.emit_line(indent, "emit(%s, %s)" % (v.name, m))
                     return
+        if k == 12 and self.p(0.5):
+            # partial with keyword names computed at run time (the names are heap strings held by the partial),
+            # created, left alone for a statement, then called through a **kwargs callee
+            self.nkw = getattr(self, "nkw", 0) + 1
+            n = self.nkw
+            vs = [v for v in sc.all_vars()]
+            x = self.ch(vs).name if vs else "1"
+            self.emit_line(indent, "def kwf%d(*a, **k):" % n)
+            self.emit_line(indent + 1, "return [a, k, sorted(k.keys())]")
+            self.emit_line(indent, "pk%d = partial(kwf%d, %s, **{\"_\".join([\"k\", str(len(str(%s)))]): %s, \"s%d\".upper(): [%s]})" % (n, n, self.expr(sc, INT, 2), x, x, n, x))
+            self.emit_line(indent, "emit(len(repr(pk%d)))" % n)
+            self.emit_line(indent, "emit(pk%d(%s, z=%s), pk%d)" % (n, self.expr(sc, INT, 2), self.expr(sc, STR, 2), n))
+            return
         if k == 12:
             fns = [f for f in sc.all_fns() if not f.mut_params and not f.mut_groups and f.params and not f.params[0][2]]
             if fns:
